@@ -211,7 +211,8 @@ class FixtureSuite(unittest.TestSuite):
             self._fixture.cleanUp()
 
     def sort_tests(self):
-        self._tests = sorted_tests(self, True)
+        # Keep _tests a list: filter_by_ids() assigns to a slice of it.
+        self._tests = list(sorted_tests(self, True))
 
 
 def _flatten_tests(suite_or_case, unpack_outer=False):
